@@ -238,7 +238,7 @@ def e2_derives(src, log, add_structural=(), drop_clone=()):
         src, k = pat.subn(lambda mm: '#[derive(' + mm.group(1) + ', Structural)]' + mm.group(2), src)
         if k: log.append('E2 added Structural to ' + ty)
     for ty in drop_clone:
-        pat = re.compile(r'#\[derive\(([^)]*)\)\]((?:\s*#\[[^\]]*\])*\s*pub\s+(?:enum|struct)\s+' + ty + r'\b)')
+        pat = re.compile(r'#\[derive\(([^)]*)\)\]((?:\s*#\[[^\]]*\])*\s*(?:pub\s+)?(?:enum|struct)\s+' + ty + r'\b)')
         def rc(mm):
             items = [x.strip() for x in mm.group(1).split(',') if x.strip() and x.strip() != 'Clone']
             return '#[derive(' + ', '.join(items) + ')]' + mm.group(2)
@@ -323,6 +323,53 @@ def n4_iter_any(src, log):
                'if %s { __any = true; break; } __j += 1; } __any }') % (recv, pat, recv, body)
         src = src[:mm.start(1)] + rep + src[close_p + 1:]
         log.append('N4 rewrote %s.iter().any(|%s| ..) into a short-circuiting index loop' % (recv, pat))
+    return src
+
+
+def _recv_start(m, end):
+    """start index of the postfix expression that ends just before m[end] (identifiers, paths, field accesses, balanced [..] / (..) groups)"""
+    i = end
+    while i > 0:
+        c = m[i - 1]
+        if c in ')]':
+            d = 0; j = i - 1
+            while j >= 0:
+                if m[j] in ')]': d += 1
+                elif m[j] in '([':
+                    d -= 1
+                    if d == 0: break
+                j -= 1
+            if j < 0: raise ValueError('N5: unbalanced receiver')
+            i = j
+        elif c.isalnum() or c in '_.:':
+            i -= 1
+        else:
+            break
+    return i
+
+
+def n5_iter_map_collect(src, log):
+    """RECV.iter().map(|P| E).collect()  ->  { push loop }   (documented semantics of slice::Iter / Iterator::map / collect::<Vec<_>>: the
+    closure is applied to a reference to each element in order and the results are collected in that order). The closure must be a literal
+    with a single identifier parameter."""
+    while True:
+        m = mask(src)
+        mm = re.search(r'\.iter\(\)\s*\.map\s*\(', m)
+        if not mm: break
+        rs = _recv_start(m, mm.start())
+        recv = src[rs:mm.start()]
+        open_p = mm.end() - 1
+        close_p = match_close(m, open_p, '(', ')')
+        inner = src[open_p + 1:close_p].strip()
+        cm = re.match(r'\|\s*([a-z_][A-Za-z0-9_]*)\s*\|\s*(.*)$', inner, re.S)
+        tail = re.match(r'\s*\.collect\s*\(\s*\)', m[close_p + 1:])
+        if not cm or not tail or not recv:
+            raise ValueError('N5: unsupported iter().map(..) site: ' + src[rs:close_p + 12][:80])
+        pat, body = cm.group(1), cm.group(2).strip()
+        rep = ('{ let __s = &%s; let mut __v = Vec::new(); let mut __j: usize = 0; while __j < __s.len() { let %s = &__s[__j]; '
+               '__v.push(%s); __j += 1; } __v }') % (recv, pat, body)
+        src = src[:rs] + rep + src[close_p + 1 + tail.end():]
+        log.append('N5 rewrote %s.iter().map(|%s| ..).collect() into a push loop' % (recv, pat))
     return src
 
 
